@@ -274,6 +274,11 @@ pub fn run(ctx: &Ctx) {
             ("d-za", Expr::func("za", Expr::reff("vi"))),
             ("e-syms", Expr::Vec(vec![Expr::symbol("val"), Expr::symbol("key"), Expr::symbol("unit price"), Expr::symbol("if")])),
             ("f-same", Expr::div(f(1.0), f(0.0))),
+            // rule names are no name space of the language: a reference named like an earlier (or later) rule is still unknown
+            ("adult", Expr::gt(Expr::reff("vi"), Expr::value(1))),
+            ("needs_guardian", Expr::not(Expr::reff("adult"))),
+            ("uses_later", Expr::iif(Expr::reff("f_same"), Expr::value(1), Expr::value(0))),
+            ("sym_named_like_rule", Expr::symbol("adult")),
         ];
         let input = crate::pool::map(&[("vi", Value::Int(5)), ("id", Value::Int(1))]);
         // every rotation of the rule list (which rule comes first must not matter)
